@@ -283,7 +283,18 @@ func nestedHistory(w *World, idx int) bool {
 				e["d"], e["td"] = d, -1
 				res = append(res, e)
 				// nested calls from the visiting goroutine
-				switch w.rng.Intn(7) {
+				switch w.rng.Intn(8) {
+				case 7:
+					// empty the collection completely from inside the visit, then put
+					// something back: the visit must go on delivering what was there
+					// when it started
+					for _, k := range w.U.Keys {
+						okAll = okAll && w.Del(main, name, k, nil)
+					}
+					for k := 0; k < 2 && okAll; k++ {
+						val, _ := w.U.NewValue(w.rng, false, nil)
+						okAll = okAll && w.SetKV(main, name, r.anyKey(name), val, r.prio(), false, nil)
+					}
 				case 6:
 					// a second visit, started from inside this callback, whose own visitor
 					// mutates twice per item: two readers hold versions while versions
